@@ -156,3 +156,7 @@ def run(chk, facts, tier):
     uids_traverse(chk, facts)
     loop(chk, facts)
     final_table(chk, facts)
+    # the re-interpretation step is the TPE evaluator: its concrete operator dispatch and the reflexivity of `in`
+    # (which only shows once the left entity has been loaded) are shared with C14
+    from rules import c02_ops
+    c02_ops.check_tpe(chk, facts)
